@@ -117,6 +117,53 @@ def rebuild(pp, path):
     return w, handles, recipe
 
 
+def eager_feasible(pp, path):
+    """Do the accepted steps of `path` succeed when performed eagerly through Container / Plate on the current objects?
+    Used only to tell a physical refusal at bake (C03's business: not a lifecycle matter) from a lifecycle failure."""
+    env.clear_caches(pp)
+    w = build_world(pp)
+    cur = {}
+
+    def get(name, form=None):
+        o = cur.get(name, w[name])
+        if form and form != 'whole':
+            return o[eval(form, {'__builtins__': {}, 'slice': slice})]
+        return o
+    try:
+        for call in path:
+            op = call[0]
+            if op == 'create_container':
+                cur[call[1]] = pp.Container(call[1], '10 mL', [(w['water'], '2 mL')])
+            elif op == 'create_solution':
+                if call[2] is None:
+                    cur[call[1]] = pp.Container.create_solution(w['nacl'], w['water'], call[1], concentration='0.5 M',
+                                                                total_quantity='2 mL')
+                else:
+                    cur[call[2]], cur[call[1]] = pp.Container.create_solution(w['nacl'], get(call[2]), call[1], quantity='10 mg',
+                                                                              total_quantity='2 mL')
+            elif op == 'create_solution_from':
+                cur[call[2]], cur[call[1]] = pp.Container.create_solution_from(get(call[2]), w['nacl'], '0.0005 M', w['water'],
+                                                                               '2 mL', call[1])
+            elif op == 'remove':
+                cur[call[1]] = get(call[1], call[2]).remove(w['absent'])
+            elif op == 'fill_to':
+                base, inc, unit = FILL_BASE[call[1]]
+                # a recipe fill_to fills the whole object (known finding for slices): feasibility is judged on that
+                cur[call[1]] = get(call[1]).fill_to(w['water'], f"{base + inc * call[3]} {unit}")
+            elif op == 'dilute':
+                cur[call[1]] = get(call[1]).dilute(w['nacl'], DILUTE_C[call[2]], w['water'])
+            elif op == 'transfer':
+                src, dst = get(call[1], call[2]), get(call[3], call[4])
+                fn = pp.Plate.transfer if call[3] == PLATE else pp.Container.transfer
+                a, b = fn(src, dst, '10 uL')
+                cur[call[1]], cur[call[3]] = a, b
+    except ValueError:
+        return False
+    except Exception:  # noqa
+        return False
+    return True
+
+
 # ---- implementation fingerprints ---------------------------------------------------------------------------
 def _contents(c):
     return tuple(sorted((s.name, round(a, 6)) for s, a in c.contents.items()))
@@ -263,6 +310,10 @@ def check_edge(pp, path, call, mstate, mtarget, live=None):
     observed = do_call(pp, w, handles, recipe, call)
     case = {'path': path, 'call': call, 'model_state': _ms(mstate), 'model_target': _ms(mtarget)}
     vs = []
+    if observed != expected and call[0] == 'bake' and expected == 'ok' and observed == 'ValueError' and \
+            not eager_feasible(pp, path):
+        # the steps cannot be carried out physically on this tree: bake's refusal is C03's matter, not a lifecycle failure
+        return [], None, False
     if observed != expected:
         vs.append(V(sig(call, mstate, 'lifecycle-outcome', expected, observed),
                     f"after {len(path)} call(s), recipe.{call[0]}{tuple(call[1:])} must "
